@@ -96,7 +96,10 @@ SHAPES = {
     "leading": (1, True, False, "one", 2, 2, 1),
     "two": (1, False, True, "blanks", 0, 0, 2),
     "two-full": (2, True, True, "two", 1, 1, 2),
+    # three extra key=value pairs, not in sorted order (round 3)
+    "extras": (1, True, 3, "one", 0, 0, 1),
 }
+EXTRA_PAIRS = [("x-rebuild", "lib 2"), ("Closes", "1")]
 
 
 def make(shape, v):
@@ -110,6 +113,8 @@ def make(shape, v):
             urg = v["urg"]
             comment = (" " + v["comment"] if v["comment"] != "" and not v["comment"].startswith(" ") else v["comment"]) if has_c else ""
             other = [(v["key"], v["value"])] if has_x else []
+            if has_x == 3:
+                other = [EXTRA_PAIRS[0], (v["key"], v["value"]), EXTRA_PAIRS[1]]
             texts = {"one": ["  " + v["text"]], "two": ["  " + v["text"], "    continued"],
                      "blanks": ["", "  " + v["text"], "", "  [ Someone ]", "  * other # not a comment", ""]}[body]
             author = "%s <%s>" % (v["name"], v["email"])
@@ -126,7 +131,7 @@ def make(shape, v):
         lines.append(" -- %s  %s" % (author, date))
         lines.append("")
         blocks.append(dict(package=pkg, version=ver, distributions=" ".join(dists), urgency=urg, urgency_comment=comment,
-                           other=dict(other), changes=texts, author=author, date=date))
+                           other=list(other), changes=texts, author=author, date=date))
     return lines, blocks
 
 
@@ -141,6 +146,9 @@ def h_roundtrip(params, h0: str, h1: str):
             if holes[i] == "ver":
                 sp = spec_parse(syms[i])
                 assume(sp is not None and sp != "edge")
+            if holes[i] == "key":
+                for k, _ in EXTRA_PAIRS + [("urgency", "")]:
+                    assume(syms[i].lower() != k.lower())
             v[holes[i]] = syms[i]
         else:
             assume(len(syms[i]) == 0)
@@ -174,7 +182,7 @@ def h_roundtrip(params, h0: str, h1: str):
         require(g.distributions == w["distributions"], "distributions", got=g.distributions, want=w["distributions"])
         require(g.urgency == w["urgency"], "urgency", got=g.urgency, want=w["urgency"])
         require(g.urgency_comment == w["urgency_comment"], "urgency comment", got=g.urgency_comment, want=w["urgency_comment"])
-        require(dict(g.other_pairs) == w["other"], "extra key/values", got=dict(g.other_pairs), want=w["other"])
+        require(list(g.other_pairs.items()) == w["other"], "extra key/values", got=list(g.other_pairs.items()), want=w["other"])
         require(g.changes() == w["changes"], "change lines", got=g.changes(), want=w["changes"])
         require(g.author == w["author"], "author", got=g.author, want=w["author"])
         require(g.date == w["date"], "date", got=g.date, want=w["date"])
@@ -272,15 +280,18 @@ def partitions(tier, seed):
     uses = {"min": {"pkg", "ver", "dist", "urg", "text", "name", "email"},
             "full": set(holes1), "noweekday": {"pkg", "ver", "dist", "urg", "text", "name", "email"},
             "leading": {"pkg", "ver", "dist", "urg", "comment", "text", "name", "email"},
-            "two": {"pkg", "ver", "dist", "urg", "key", "value", "text", "name", "email"}, "two-full": set(holes1)}
+            "two": {"pkg", "ver", "dist", "urg", "key", "value", "text", "name", "email"}, "two-full": set(holes1),
+            "extras": {"key", "value", "urg", "comment"}}
     for shape in ("leading", "two-full"):
         P.append(dict(name="reuse/%s" % shape, harness="h_roundtrip", params=dict(shape=shape, hole=["text"], lens=[1], reuse=True),
                       budget=90 if q else 600, reach=[], bounds="template %s parsed, then a second text, then the first again with the same object" % shape))
-    for shape in (("min", "full") if q else SHAPES):
+    for shape in (("min", "full", "extras") if q else SHAPES):
         for h in holes1:
             if h not in uses[shape]:
                 continue
             if q and shape == "min" and h not in ("pkg", "ver", "text"):
+                continue
+            if q and shape == "extras" and h not in ("key", "value"):
                 continue
             for ln in ((1,) if q else (0, 1, 2, 3)):
                 if ln == 0 and h not in ("comment", "text", "name", "email"):
